@@ -187,19 +187,41 @@ fn main() {
             removed_after_build = Some(xs);
         }
         // ---- source archive
+        // composition of the source's (listfile) (Gen_Rebuild lfSelf / lfAttr / lfHide): does it name itself, does it name
+        // (attributes), does it leave out ordinary files of the archive (two: one plain, one encrypted, chosen from the seed)
+        let gbd = |k: &str, d: bool| src.get(k).and_then(|x| x.as_bool()).unwrap_or(d);
+        let (lf_self, lf_attr, lf_hide) = (gbd("lfSelf", true), gbd("lfAttr", true), gbd("lfHide", false));
+        let mut hidden: Vec<&'static str> = vec![];
+        if lf_hide {
+            let mut hrng = Rng::derive(seed, &format!("{case}:hide"));
+            for want_enc in [false, true] {
+                let cand: Vec<&'static str> = files.iter().filter(|f| f.enc == want_enc && !f.name.starts_with('(')).map(|f| f.name).collect();
+                if !cand.is_empty() {
+                    hidden.push(cand[hrng.below(cand.len() as u64) as usize]);
+                }
+            }
+        }
+        let generated_shape = lf_self && (lf_attr || !gb(src, "at")) && !lf_hide;
         let lfpath = scratch.file(&format!("{case}-listfile.txt"));
-        let lfopt = if prov == "superset" {
-            // an external listfile naming every file of the archive and 300 files that are NOT in it
+        let lfopt = if prov == "superset" || !generated_shape {
+            // an external listfile; `superset`: it also names 300 files that are NOT in the archive
             let mut txt = String::new();
             for f in &files {
+                if hidden.contains(&f.name) {
+                    continue;
+                }
                 txt.push_str(f.name);
                 txt.push_str("\r\n");
             }
-            for k in 0..300 {
-                txt.push_str(&format!("absent\\n{k:03}.dat\r\n"));
+            if prov == "superset" {
+                for k in 0..300 {
+                    txt.push_str(&format!("absent\\n{k:03}.dat\r\n"));
+                }
             }
-            txt.push_str("(listfile)\r\n");
-            if gb(src, "at") {
+            if lf_self {
+                txt.push_str("(listfile)\r\n");
+            }
+            if gb(src, "at") && lf_attr {
                 txt.push_str("(attributes)\r\n");
             }
             std::fs::write(&lfpath, txt).unwrap_or_else(|e| tool_error(&format!("write listfile: {e}")));
@@ -248,21 +270,25 @@ fn main() {
             std::fs::write(&spath, whole).unwrap_or_else(|e| tool_error(&format!("write source: {e}")));
         }
         // ground truth: the names the driver put into the archive (a listing that shows anything else is not as built)
-        let mut truth: Vec<String> = files.iter().map(|f| f.name.to_string()).collect();
-        truth.push("(listfile)".into());
+        // LISTED = the names the source's (listfile) names; UNLISTED = names that are in the archive without being named there
+        let mut truth: Vec<String> = files.iter().filter(|f| !hidden.contains(&f.name)).map(|f| f.name.to_string()).collect();
+        let mut unlisted: Vec<String> = hidden.iter().map(|n| n.to_string()).collect();
+        (if lf_self { &mut truth } else { &mut unlisted }).push("(listfile)".into());
         if gb(src, "at") {
-            truth.push("(attributes)".into());
+            (if lf_attr { &mut truth } else { &mut unlisted }).push("(attributes)".into());
         }
+        let lfcls = json!({"lfself": lf_self, "lfattr": lf_attr, "lfhide": lf_hide});
         // everything that touches the code under test runs under a watchdog: a call that does not return is data
         if HANGS.load(std::sync::atomic::Ordering::SeqCst) >= 6 {
             // several calls are already spinning in leaked threads: do not start more work on this tree
             evs.push(json!({"ev":"Reset","case":case,"ver":gi(src,"ver"),"at":gb(src,"at"),"empty":gb(src,"empty"),"sigfile":with_sig,"sbs":sbs,"edge":edge,
-                "srcbad":["<not-run-after-hangs>"],"hetbet":false,"listed":[],"tok":{},"enc":[],"sig":[]}));
+                "srcbad":["<not-run-after-hangs>"],"hetbet":false,"listed":[],"tok":{},"enc":[],"sig":[],"pow":pow,"prov":prov,"lf":lfcls,"unlisted":[]}));
             blocks.lock().unwrap()[ci] = Some(evs);
             return;
         }
-        let expect: Vec<(String, String)> = files.iter().map(|f| (f.name.to_string(), tok(&f.data))).collect();
+        let expect: Vec<(String, String)> = files.iter().filter(|f| !hidden.contains(&f.name)).map(|f| (f.name.to_string(), tok(&f.data))).collect();
         let sp = spath.clone();
+        let unl = unlisted.clone();
         let inspected = timed(move || -> Result<(Vec<String>, bool, Map<String, Value>, Vec<String>, Vec<String>), String> {
             let mut sa = Archive::open(&sp).map_err(|e| format!("open: {e:?}"))?;
             let shown: Vec<String> = sa.list().map_err(|e| format!("list: {e:?}"))?.into_iter().map(|e| e.name).collect();
@@ -303,6 +329,12 @@ fn main() {
                     srcbad.push(name.clone());
                 }
             }
+            // unlisted names are in the archive all the same (they are reachable by name)
+            for n in &unl {
+                if !matches!(sa.find_file(n), Ok(Some(_))) {
+                    srcbad.push(format!("<unlisted name not in the archive: {n}>"));
+                }
+            }
             Ok((listed, hetbet, toks, enc, srcbad))
         });
         let (listed, hetbet, toks, enc, srcbad) = match inspected {
@@ -314,14 +346,14 @@ fn main() {
                     _ => "<hang>".to_string(),
                 };
                 evs.push(json!({"ev":"Reset","case":case,"ver":gi(src,"ver"),"at":gb(src,"at"),"empty":gb(src,"empty"),"sigfile":with_sig,"sbs":sbs,"edge":edge,
-                    "srcbad":[why],"hetbet":false,"listed":[],"tok":{},"enc":[],"sig":[]}));
+                    "srcbad":[why],"hetbet":false,"listed":[],"tok":{},"enc":[],"sig":[],"pow":pow,"prov":prov,"lf":lfcls,"unlisted":[]}));
                 blocks.lock().unwrap()[ci] = Some(evs);
                 return;
             }
         };
         let sig: Vec<String> = listed.iter().filter(|n| n.as_str() == "(signature)" || n.as_str() == "(strong signature)").cloned().collect();
         evs.push(json!({"ev":"Reset","case":case,"ver":gi(src,"ver"),"at":gb(src,"at"),"empty":gb(src,"empty"),"sigfile":with_sig,"sbs":sbs,"edge":edge,"pow":pow,"prov":prov,"srcbad":srcbad,"hetbet":hetbet,
-            "listed":listed,"tok":Value::Object(toks),"enc":enc,"sig":sig}));
+            "listed":listed,"tok":Value::Object(toks),"enc":enc,"sig":sig,"lf":lfcls,"unlisted":unlisted}));
         // ---- rebuild
         let target = gi(o, "target");
         let comp = gs(o, "comp");
